@@ -16,14 +16,13 @@ EXTENDS Naturals, Integers, Sequences, FiniteSets, TLC, Json
 CONSTANTS IdLenNat,      \* non-negative arguments tried for -Cidlen=<n> (-1 is added: the code maps negatives to 1)
           SMaxNat,       \* non-negative arguments tried for -Csmax=<n>
           MaxOpts,       \* longest option sequence explored
-          FreeLen        \* sequences up to this length are explored in every order
+          FreeLen,       \* sequences up to this length are explored in every order
+          ConfStdC       \* ccDoStandardCFlag = -1 means: the value of "generate-stdc" in aldor.conf for the platform (true on linux)
 
 IdLenArgs == IdLenNat \cup {-1}
 SMaxArgs == SMaxNat \cup {-1}
 DefaultIdLen == 30        \* genc.c: static int gcvIdLen = 30
 DefaultSMax  == 0         \* genc.c: static int gcvSMax = 0
-(* ccDoStandardCFlag = -1: taken from aldor.conf "generate-stdc" (false on this platform) *)
-ConfStdC == FALSE
 
 VARIABLES std, lines, idhash, idlen, smax, opts
 vars == <<std, lines, idhash, idlen, smax, opts>>
@@ -97,5 +96,5 @@ LastWins ==
   /\ \A n \in SMaxArgs  : LastOf(3) = "-Csmax=" \o Num(n)  => smax = (IF n < 0 THEN 1 ELSE n)
 (* no option sequence leaves the limits negative *)
 NoNegative == idlen >= 0 /\ smax >= 0
-DefaultsInScope == opts = <<>> => InScope /\ ~MaySplit /\ ~StdC
+DefaultsInScope == opts = <<>> => InScope /\ ~MaySplit /\ StdC = ConfStdC
 =============================================================================
